@@ -1,0 +1,7 @@
+//go:build verif
+
+package files
+
+// Verification hooks (build tag `verif`).
+
+func VerifPathMatches(target string, pattern string) bool { return pathMatches(target, pattern) }
